@@ -657,6 +657,11 @@ def gen_payload(rng, lists=False):
         q = {"q": gen_leaf(rng)}
         if rng.random() < 0.5:
             q["r"] = {"s": gen_leaf(rng)}
+        if rng.random() < 0.35:
+            # payload leaves named like key fields, below the record level (they are ordinary payload there)
+            q[rng.choice(list(KEY_FIELDS))] = gen_leaf(rng)
+            if "r" in q and rng.random() < 0.5:
+                q["r"][rng.choice(list(KEY_FIELDS))] = gen_leaf(rng)
         if rng.random() < 0.15:
             q["e"] = {}
         p["p"] = q
